@@ -72,12 +72,17 @@ def gen_project(r, npkgs=None, features=None):
                     dp["tool"] = {"path": "b1"}
                 if d not in pkg["useTools"]:
                     pkg["useTools"].append(d)
+                # a tool may also be used by the checkout script (the checkout step then has a dependency)
+                if pkg["co"] and pkg["co"]["script"] and r.random() < 0.5:
+                    pkg["co"]["script"].setdefault("tools", [])
+                    if d not in pkg["co"]["script"]["tools"]:
+                        pkg["co"]["script"]["tools"].append(d)
     if "defines" in f and r.random() < 0.3:
         proj["defines"][r.choice(VARS)] = r.choice(VALUES)
     return proj
 
 
-EDIT_KINDS = ["bscript", "pscript", "coscript", "var-value", "var-list", "dep-add", "dep-remove", "provide", "tool-use",
+EDIT_KINDS = ["cotool", "bscript", "pscript", "coscript", "var-value", "var-list", "dep-add", "dep-remove", "provide", "tool-use",
               "tool-path", "src-modify", "src-add", "src-delete", "define", "class", "env", "revert", "codet",
               "import-url", "noop"]
 
@@ -153,6 +158,14 @@ def edit(r, proj, history, kinds=None):
                 if p["pkgs"][d]["tool"] is None:
                     p["pkgs"][d]["tool"] = {"path": "b1"}
                 pkg["useTools"].append(d)
+            return p, [kind, name, d]
+        if kind == "cotool" and pkg["co"] and pkg["co"]["script"] and pkg["useTools"]:
+            d = r.choice(pkg["useTools"])
+            tl = pkg["co"]["script"].setdefault("tools", [])
+            if d in tl:
+                tl.remove(d)
+            else:
+                tl.append(d)
             return p, [kind, name, d]
         if kind == "tool-path" and pkg["tool"]:
             pkg["tool"]["path"] = "b%d" % ser
@@ -258,8 +271,12 @@ def render_recipe(name, pkg, proj, is_root):
             rec["checkoutDeterministic"] = bool(sc["det"])
             if sc["vars"]:
                 rec["checkoutVars"] = sorted(sc["vars"])
-            rec["checkoutScript"] = ("OUT=gen.txt\necho \"C %s %d\" > $OUT\n" % (name, sc["id"]) + _hook("checkout", name)
-                                     + "{\n:\n" + _vars(sc["vars"]) + "} >> $OUT\n")
+            ctools = ["t_" + d for d in sc.get("tools", []) if d in pkg["useTools"]]
+            if ctools:
+                rec["checkoutTools"] = ctools
+            ctool_lines = "".join('tp="${BOB_TOOL_PATHS[%s]}"; echo "T %s ${tp##*/}"; dump "${tp%%/*}"\n' % (t, t) for t in ctools)
+            rec["checkoutScript"] = (DUMP_FN + "OUT=gen.txt\necho \"C %s %d\" > $OUT\n" % (name, sc["id"]) + _hook("checkout", name)
+                                     + "{\n:\n" + _vars(sc["vars"]) + ctool_lines + "} >> $OUT\n")
     tools = ["t_" + d for d in pkg["useTools"]]
     bvars = sorted(set(pkg["bvars"]))
     if bvars:
@@ -267,13 +284,16 @@ def render_recipe(name, pkg, proj, is_root):
     if tools:
         rec["buildTools"] = tools
     tool_lines = "".join('tp="${BOB_TOOL_PATHS[%s]}"; echo "T %s ${tp##*/}"; dump "${tp%%/*}"\n' % (t, t) for t in tools)
-    rec["buildScript"] = (DUMP_FN + "OUT=m\necho \"B %s %d\" > $OUT\n" % (name, pkg["bid"]) + _hook("build", name)
+    # the build workspace is reused between runs (develop mode): a marker file per script variant makes left-overs of
+    # an *other* variant visible (Bob must prune on a changed variant), re-runs of the same variant are idempotent
+    rec["buildScript"] = (DUMP_FN + "OUT=m\n: > \"id-%s-%d\"\necho \"B %s %d ids:$(echo id-*)\" > $OUT\n" % (name, pkg["bid"], name, pkg["bid"])
+                          + _hook("build", name)
                           + "{\n" + _vars(set(bvars) | set(cls_vars)) + tool_lines
                           + 'for a in "$@"; do echo "A"; dump "$a"; done\n} >> $OUT\n')
     pvars = sorted(set(pkg["pvars"]))
     if pvars:
         rec["packageVars"] = pvars
-    rec["packageScript"] = (DUMP_FN + "OUT=m\necho \"P %s %d\" > $OUT\n" % (name, pkg["pid"]) + _hook("package", name)
+    rec["packageScript"] = (DUMP_FN + "PRE=\"$(echo *)\"\nOUT=m\necho \"P %s %d pre:$PRE\" > $OUT\n" % (name, pkg["pid"]) + _hook("package", name)
                             + "{\n" + _vars(pvars) + 'dump "$1"\n} >> $OUT\n')
     return _yaml(rec)
 
@@ -415,12 +435,17 @@ def shutdown_servers():
             del _SERVERS[k]
 
 
+class OutOfTime(Exception):
+    """the worker's deadline passed: the current history / scenario is abandoned (no verdict)"""
+
+
 class Sim:
     """one project directory with real Bob invocations"""
 
-    def __init__(self, root, repo):
+    def __init__(self, root, repo, deadline=None):
         self.root = root
         self.repo = repo
+        self.deadline = deadline
         self.n = 0
         os.makedirs(root, exist_ok=True)
         self.scratch = root + ".run"
@@ -444,6 +469,9 @@ class Sim:
             pass
 
     def invoke(self, develop, argv, abort_at=None, real_pool=False, timeout=120):
+        import time
+        if self.deadline is not None and time.time() > self.deadline:
+            raise OutOfTime()
         self.n += 1
         base = os.path.join(self.scratch, "inv%d" % self.n)
         job = {"cwd": self.root, "develop": develop, "argv": list(argv), "abort_at": abort_at, "out": base + ".out",
